@@ -252,6 +252,9 @@ var vfInvalidSeqs = map[string][]byte{
 	"surrogate":      {0xed, 0xa0, 0x80},
 	"truncated-lead": {0xe2, 0x82},
 	"two-separated":  {0x80, 'x', 0xfe},
+	// a correctly encoded U+FFFD is a valid character and stays what it is, next to offending bytes too
+	"valid-fffd-then-ff":     {0xef, 0xbf, 0xbd, 0xff},
+	"ff-then-two-valid-fffd": {0xff, 0xef, 0xbf, 0xbd, 0xef, 0xbf, 0xbd},
 }
 
 func vfParallel(n int, f func(i int)) {
@@ -417,7 +420,7 @@ func TestVerifC17(t *testing.T) {
 	res.Set("chain_cases", chains)
 	res.Set("supported_root_types", int64(len(roots)))
 	res.Set("unsupported_root_types", unsupported)
-	res.Set("rule", fmt.Sprintf("for each of the %d request/response types the proxy can down-convert: legacy-restricted fully populated message; its encoding, every truncation and every byte position x {0x00,0x80,0xC0,0xFF,b^1} (first %d bytes), every string occurrence x 5 invalid sequences x {insert, overwrite}, all failure messages at once, first failure message + each other string, failure chains of length 1..12 with the invalid message first/last/everywhere; non-trivial = the standard codec rejects the input", len(roots), maxWire))
+	res.Set("rule", fmt.Sprintf("for each of the %d request/response types the proxy can down-convert: legacy-restricted fully populated message; its encoding, every truncation and every byte position x {0x00,0x80,0xC0,0xFF,b^1} (first %d bytes), every string occurrence x 7 invalid sequences (two of them with correctly encoded U+FFFD characters next to the offending byte) x {insert, overwrite}, all failure messages at once, first failure message + each other string, failure chains of length 1..12 with the invalid message first/last/everywhere; non-trivial = the standard codec rejects the input", len(roots), maxWire))
 	res.Set("exhaustive", true)
 	res.Sample(map[string]any{"root": string(roots[0].MD.FullName()), "kind": "byte", "args": []int{3, 255}})
 	res.Sample(map[string]any{"root": string(roots[len(roots)-1].MD.FullName()), "kind": "string", "args": []any{0, "surrogate", "insert"}})
